@@ -470,3 +470,19 @@ Theorem clique_identity_general : forall tau, (2 <= tau)%nat ->
   forall (phi : Q) (Hs : list Q), length Hs = (tau - 1)%nat ->
     clique_val tau phi Hs == exact_val (seq 0 tau) (all_edges tau) 0 phi (fun v => nth (v - 1) Hs 0).
 Proof. exact (clique_identity_reduces_to_Q_count Qv_count_general). Qed.
+
+(* ---- small corollaries used by Props/C16.v *)
+Theorem Qcode_count_upto_12 : forall n k, (1 <= n <= 12)%nat -> (0 <= k <= tri (Z.of_nat n))%Z ->
+  Qcode n k = brute n (Z.to_nat k).
+Proof. intros n k Hn Hk. rewrite <- Qv_is_code by lia. apply Q_count_upto_12; assumption. Qed.
+
+(* the model's Q and QQ values pass the verified checker for every n, k and every bmax *)
+Theorem Q_model_meets_check_general : forall bmax n k, (1 <= n)%nat -> (0 <= k <= tri (Z.of_nat n))%Z ->
+  check_count bmax n k (Qv n k) = true /\ check_count bmax n k (QQv n k) = true.
+Proof.
+  intros bmax n k Hn Hk. unfold check_count, count_spec.
+  destruct (Z.ltb_spec k 0); [lia|].
+  rewrite (Qv_count_general n k Hn Hk), (QQ_eq_brute_general n k Hk).
+  destruct (n <=? Nat.min bmax 7)%nat; [rewrite Z.eqb_refl; auto|].
+  rewrite (cross_eq_brute n k Hn) by lia. rewrite Z.eqb_refl. auto.
+Qed.
